@@ -490,7 +490,7 @@ func genFamily(rng *rand.Rand, family string, idx int, o batOpts) *Scenario {
 		o.coincideP = 0.2
 		o.stopMidP = 0.4
 	case "pauses":
-		o.pauses = []int64{0, -7 * MS, 1 * MS, 3 * MS, 250 * MS, 2 * SEC}
+		o.pauses = []int64{0, -7 * MS, 1 * MS, 3 * MS, 250 * MS, 2 * SEC, 900_000, 2*MS + 500_000, 40*MS + 1}
 		o.reactPauses = []int64{0, 0, 1, 2, 3}
 		o.pauseP = 0.5
 		o.coincideP = 0.2
